@@ -23,17 +23,19 @@ Definition g_rearrange (x : sexp) : option (list (binding * ident)) :=
                  | L [b; i] => do b <- g_binding b; do i <- g_ident i; Some (b, i)
                  | _ => None end) x.
 
-Definition subst_case_any (i r : sexp) : verdict :=
+Definition subst_case_any (sem : bool) (i r : sexp) : verdict :=
   match i with
   | L [A bk; c; re; lc] =>
       match sbackend_of bk with
       | None => VSkip ("no ISA model plugged in for backend " ++ bk)
       | Some sb =>
           match g_ctx c, g_rearrange re, getN lc with
-          | Some c, Some re, Some lc => subst_case sb c re lc r
+          | Some c, Some re, Some lc => subst_case sb sem c re lc r
           | _, _, _ => VBad "input unreadable"
           end
       end
   | _ => VBad "input shape"
   end.
-Definition run_subst : string -> string := run_cases subst_case_any.
+Definition run_subst : string -> string := run_cases (subst_case_any true).
+(* correspondence only (used by the mutation test to tell which of the two parts fires) *)
+Definition run_subst_corr : string -> string := run_cases (subst_case_any false).
